@@ -31,13 +31,20 @@ def body_case(cm, roles, k, b):
         if present is not True:
             return 'NOOP'
         if cm.name in TTL_CACHES and found_expired(seg) is True:
-            return 'REMOVE'
+            # a lookup may discard the expired entry it ran into, or leave it for the next prune / clean
+            return 'REMOVE' if any(e.kind == 'UNBIND' for e in effs) else 'NOOP'
         if cm.name in PEEK_CAPABLE:
             pk = seg.cond('PEEK')
             if pk is True:
                 return 'NOOP'
             if pk is False:
                 return 'USE'
+            if not ops.named(b.method) and not any('peek' in (p.get('type', {}).get('qualType', '') or '') for p in b.method.params):
+                # a lookup-like operation added later, without a peek argument (contains / touch): either it leaves the order
+                # alone or what it does to it is exactly a use
+                if getattr(b.method, 'eff_use', False):
+                    return 'USE'        # some live hit of this method records a use: then every live hit has to
+                return 'USE' if any(e.kind in ('MOVE', 'PART', 'CNT', 'AUX_ADD', 'AUX_DEL', 'AUX_MOVE', 'STAMP') for e in effs) else 'NOOP'
             return 'HIT-UNDECIDED-PEEK'
         return 'HIT'
     if k == 'ERASE':
